@@ -7,6 +7,8 @@ multiset of the parent (each object once, filed under the right statistic values
 same rule reports, and for every form with object maps (plain, equivalence, reverse-of-equivalence, equivalence path)
 forward then backward returns the object and the parts are objects of the corresponding child.
 (c) whole specifications on REG: part of the end-to-end group (harness/e2e).
+(d) fault schedule: a generation call is interrupted by an exception raised from a child's provider at the f-th provider call
+(f a solver variable) and the same rule object is asked again - it must still generate exactly the reference objects.
 """
 import itertools
 from collections import Counter, defaultdict
@@ -44,6 +46,7 @@ def on_shape(shape):
     B = shape["B"]
     from typing import Tuple
     check.__annotations__["t"] = Tuple[(int,) * LEN] if LEN else Tuple[()]
+    check_retry.__annotations__["t"] = check.__annotations__["t"]
 
 
 def objs_from_counts(tab, tag):
@@ -189,6 +192,51 @@ def run_config(shape, t):
                         if list(rev.backward_map(up)) != [parts[0]]:
                             return _fail("reverse of equivalence: backward_map(forward_map(.)) differs")
     return True
+
+
+class Interrupted(Exception):
+    """what the fault-injecting provider raises (stands for Ctrl-C, RecursionError, an error inside a strategy map)"""
+
+
+def run_retry(shape, t, f):
+    """(d) A generation call on the rule is interrupted by an exception raised from a child's provider - the position of
+    the fault is the solver variable f, compared with the running number of provider calls - and the same rule object is
+    then asked again: what it generates must still be exactly the reference objects (nothing half-filled may stay cached).
+    If the fault position lies beyond the calls of the first request the run is an ordinary audit."""
+    kids = [c09.mk_class(i + 1, ch) for i, ch in enumerate(shape["children"])]
+    live = [i for i, ch in enumerate(shape["children"]) if not ch.get("empty")]
+    if shape["kind"] == "product":
+        pmin = sum(c.m for c in kids)
+    else:
+        pmin = min(kids[i].m for i in live)
+    parent = K(0, pmin, False, shape["parent"]["params"])
+    strat = (Prod if shape["kind"] == "product" else Union)(kids, shape["maps"])
+    tabs = c09.tables_from(shape, t)
+    otabs = [objs_from_counts(tb, i) for i, tb in enumerate(tabs)]
+    pobjs = (product_objects if shape["kind"] == "product" else union_objects)(shape, otabs)
+    N = c09.max_size(shape) + 1
+    rule = strat(parent)
+    state = {"calls": 0, "armed": True}
+
+    def faulty(prov):
+        def g(n):
+            if state["armed"]:
+                k = state["calls"]
+                state["calls"] = k + 1
+                if k == f:
+                    state["armed"] = False
+                    raise Interrupted()
+            return prov(n)
+        return g
+
+    rule.subobjects = tuple(faulty(oprovider(o)) for o in otabs)
+    rule.subterms = tuple(cprovider(o) for o in otabs)
+    try:
+        rule.get_objects(N)
+    except Interrupted:
+        pass
+    state["armed"] = False
+    return audit_rule(rule, [oprovider(o) for o in otabs], [cprovider(o) for o in otabs], pobjs, N, "forward rule asked again after an interrupted generation call (fault at provider call %r)" % (f,))
 
 
 def run_path(shape, t):
@@ -381,6 +429,17 @@ def check(t: List[int]) -> bool:
     return core.final(run_config(shape, t))
 
 
+NF = 12
+
+
+def check_retry(t: List[int], f: int) -> bool:
+    """
+    pre: _bounds(t) and 0 <= f < NF
+    post: _
+    """
+    return core.final(run_retry(core.SHAPE, t, f))
+
+
 def groups(tier):
     """Every count forks (B+1) ways (it is the length of an object list), so a configuration is shrunk - fewer sizes per
     class, then counts in [0,1] - until (B+1)^entries fits the budget.  What ran is listed in the evidence."""
@@ -409,6 +468,19 @@ def groups(tier):
             d["W"], d["B"] = W, Bv
             gs.append({"name": "%s-W%dB%d" % (c["name"], W, Bv), "fn": "check", "shape": d,
                        "cond_timeout": 900.0 if tier == "quick" else 2400.0, "path_timeout": 120.0, "weight": (Bv + 1) ** ln})
+    # (d) interrupted generation call, then the same rule asked again: the plain (forward) configurations, counts in [0,1]
+    nretry = 0
+    for c in c09.catalogue("quick"):
+        c = dict(c)
+        if c["kind"] == "path" or "fwd" not in c["forms"]:
+            continue
+        c["forms"] = ["fwd"]
+        c["W"], c["B"] = 1, 1
+        c09.on_shape(c)
+        if 2 ** c09.LEN * NF <= (200 if tier == "quick" else 1600):
+            nretry += 1
+            gs.append({"name": "retry-%s-W1B1" % c["name"], "fn": "check_retry", "shape": c,
+                       "cond_timeout": 900.0 if tier == "quick" else 2400.0, "path_timeout": 120.0, "weight": 2 ** c09.LEN * NF})
     # (c) whole specifications
     opts = ["plain", "inferral", "symmetry", "factory2", "finite", "k", "kk", "ku", "two"]
     if tier == "thorough":
@@ -431,7 +503,8 @@ def meta(tier):
                   "every position, reverse of equivalence, equivalence paths of 2-3 steps incl. reverse steps); number of objects per "
                   "(child, size, statistic value) symbolic in [0,%d]; W<=2..3 sizes per class" % (2 if tier == "quick" else 3),
         "outside": ["NonBijectiveRule (none in these universes)", "complement/quotient forms (the library declines object generation there)"],
-        "stubs": ["stub classes/strategies; objects are tagged tuples; Union.forward_map locates an object by its tag"],
+        "stubs": ["stub classes/strategies; objects are tagged tuples; Union.forward_map locates an object by its tag",
+                  "(d) providers that raise once at the f-th call (stands for any exception interrupting a generation call)"],
         "assumptions": ["reference object semantics of a genuine union/product (union_objects, product_objects)"],
     }
     m["bounds"] = str(m.get("bounds", "")) + " || end-to-end groups of this run: " + e2e.describe_groups(groups(tier))
